@@ -489,6 +489,34 @@ def rule_kept_ring(rep: Report, cu: CUnit, repo: Repo) -> None:
               f'getters {getters}', cu.site(cu.func(getters[0])) if getters else '', expected='one getter registered under the attribute name')
 
 
+def rule_signal_py(rep: Report, repo: Repo) -> None:
+    """the C loops poll for a pending interrupt at the top of an op; a python loop that relies on KeyboardInterrupt being RAISED inside it is
+    stopped between any two bytecodes - after the flip of an op and before that op is counted"""
+    rep.rule('C18.SIGNAL-PY', 'a python run loop sees an interrupt only between two ops: it polls a flag that a signal handler sets (or an '
+             'equivalent test in the loop condition), instead of letting KeyboardInterrupt be raised asynchronously in the middle of an op - '
+             'where memory already holds the flip of an op the reported op count and last-ops list do not include', 2)
+    mod = repo.mod(RUN_REL)
+    installs = any(isinstance(c, ast.Call) and dotted(c.func) in ('signal.signal', 'signal.set_wakeup_fd') for c in ast.walk(mod))
+    catches = any(isinstance(h, ast.ExceptHandler) and h.type is not None and 'KeyboardInterrupt' in norm(h.type) for h in ast.walk(mod))
+    n = 0
+    for q in ('_run_fast', '_run_featured'):
+        if not repo.has_func(RUN_REL, q):
+            continue
+        fn = repo.func(RUN_REL, q)
+        loops_ = [w_ for w_ in ast.walk(fn) if isinstance(w_, ast.While)]
+        if not loops_:
+            continue
+        n += 1
+        polls = installs and any(isinstance(x, ast.Name) and 'interrupt' in x.id.lower() for w_ in loops_ for x in ast.walk(w_))
+        rep.check(polls or not catches, 'C18.SIGNAL-PY', f'{q}:asynchronous interrupt', 'the loop polls an interrupt flag between ops' if polls else
+                  'no signal handler is installed and the loop polls nothing: run() turns a KeyboardInterrupt raised anywhere inside an op into the '
+                  'termination - a SIGINT that lands after the flip and before the op is counted reports n ops while memory holds the flip of op n+1 '
+                  '(and the last-ops list may carry the half-executed op); the native engine polls at the top of an op and is consistent',
+                  f'{RUN_REL}:{fn.lineno} {q}', expected='an interrupt is noticed only at an op boundary')
+    if n < 2:
+        raise AnalysisError(f'C18.SIGNAL-PY: {n} python run loops found (_run_fast and _run_featured expected)')
+
+
 def check(rep: Report, repo: Optional[Repo] = None) -> None:
     repo = repo or Repo()
     cu = CUnit(repo)
@@ -499,6 +527,7 @@ def check(rep: Report, repo: Optional[Repo] = None) -> None:
     rule_finally(rep, repo, cu)
     rule_cfail(rep, cu, repo)
     rule_signal(rep, cu)
+    rule_signal_py(rep, repo)
     rule_stats_on_raise(rep, repo)
     rule_kept_ring(rep, cu, repo)
     rep.not_decided.append('equality of the memory snapshot at every fault point across engines (value-level)')
